@@ -2,7 +2,20 @@ package c06
 
 // c06.go: worlds (in-process servers with and without a backend), blob
 // placement, upload and query paths, the hit/miss oracle, and the driver of
-// the presence part. The recency part lives in recency.go.
+// the presence part. The recency part lives in recency.go, the concurrent
+// part in concurrent.go.
+//
+// Finding keys:
+//
+//	C06:hit-with-missing-blob:<what>@<class>[:beyond-first-20]:<backend|nobackend>
+//	    what = absent | size-mismatch | evicted; class = file | tree-blob |
+//	    tree-root-file | tree-child-file | stdout | stderr; also
+//	    nothing-stored, random-subset, size-mismatch-held-by-backend[@tree-blob]
+//	C06:hit-with-missing-blob:intermittent:backend   (the hit does not repeat)
+//	C06:miss-with-all-present:<plan>:<be>  C06:error-with-all-present:<plan>:<be>
+//	C06:error-on-absence:<what>@<class>:<be>  C06:partial-result:<plan>:<be>
+//	C06:recency:<class>-not-refreshed-by-hit:<query path>:<be>
+//	C06:recency:lookup-evicts:<be>
 
 import (
 	"bytes"
@@ -67,7 +80,7 @@ func newWorld(r *lib.Run, storage, impl string, backend bool, maxSize int64, dir
 }
 
 func (w *world) close() {
-	lib.WaitEvictionsDrained(w.srv.Cache, 0)
+	lib.WaitEvictionsDrained(w.srv.Cache, 2*time.Second)
 	w.srv.Close()
 }
 
@@ -787,7 +800,7 @@ func run(r *lib.Run) {
 	r.Assume("Tree blobs are always parsable (unparsable ones are C14's business)")
 
 	t0 := time.Now()
-	nShapes := r.N(28, 400)
+	nShapes := r.N(28, 320)
 	part := os.Getenv("VERIF_C06_PART") // development aid: "presence" | "recency" | "concurrent"
 	rng := r.Rng("shapes")
 	var jobs []job
